@@ -15,8 +15,31 @@ def persistent_writes(st: State, preexisting=()) -> List[tuple]:
     """Writes of a path that outlive the call: stores into the global directories and per-type maps,
     mutations of converter lists, field stores on objects that existed before the call."""
     out = []
+
+    def transparent_memo(e):
+        """A store into a process-global memo whose value is computed from the key alone (a number from a number):
+        nothing a later call could observe - not a declaration."""
+        g, key, val = e[1], e[2], e[3]
+        if getattr(g, "registry", False) or getattr(g, "convtable", False) or getattr(g, "unit_values", False) \
+                or getattr(g, "owner", None) is not None or g.name.startswith("_unit_map(") or getattr(g, "record_types", None):
+            return False
+        if not isinstance(val, Num):
+            return False
+        keys = key.items if isinstance(key, TupleV) else [key]
+        if not all(isinstance(k, (Num, StrV, EnumV, NoneV, BoolV)) for k in keys):
+            return False
+        katoms = set()
+        for k in keys:
+            if isinstance(k, Num):
+                katoms |= set(st.norm(k.rf).atoms())
+        vat = set(st.norm(st.expand_rnd(val.rf)).atoms())
+        # (a symbolic exponent is the symbolic integer of the case: covered when the key holds a symbolic number)
+        sym_key = any(isinstance(k, Num) and not st.norm(k.rf).is_const() for k in keys)
+        return all(a in katoms or a[0] in ("fn", "rnd", "const") or (a[0] == "n" and sym_key) for a in vat)
     for e in st.effects:
         if e[0] == "setitem" and isinstance(e[1], GlobalMapV):
+            if transparent_memo(e):
+                continue
             out.append(("setitem", e[1].name, e[2], e[3], e[-1]))
         elif e[0] == "mapcall" and isinstance(e[1], GlobalMapV) and e[2] in (
                 "register_item", "update", "pop", "clear", "setdefault", "popitem"):
